@@ -22,6 +22,10 @@ def run_partitions(case):
     try:
         ds = _impl["Dataset"].from_raw_list(am.raw_dataset(case["D"]))
         ss = _impl["SS"](core.scheme_float(B, T, unit))
+        if case.get("lex") is not None:
+            lib, tlc = core.lex_vectors(case["lex"])
+            ss = _impl["SS"](lib)
+            rec["sch"] = [tlc[0], tlc[1], 1]
         if case.get("prevD"):
             try:
                 pds = _impl["Dataset"].from_raw_list(core.Absmap(case["naming"], case["prevD"]).raw_dataset(case["prevD"]))
